@@ -290,18 +290,194 @@ def build(ctx):
     return common.build_full(ctx, "h_target", ["target.cpp"])
 
 
+# ---------------------------------------------------------------------------------------------
+# which code is it?  (the model has a flag for each of the two suggested repairs, so that the check
+# follows the tree: see notes/C15-findings.md)
+
+FIELD_PROBE = [["init"], ["spawn", "2"], ["spawn", "2"], ["fieldset", "$2", "7"]]
+VALUE_PROBE = [["init"], ["spawn", "2"], ["spawn", "2"], ["capture", "1", "2"], ["spawn", "2"], ["size", "v1"]]
+D16_WITNESS = [["init"], ["spawn", "2"], ["spawn", "2"], ["capture", "1", "2"], ["delete", "o1"], ["delete", "o2"],
+               ["size", "v1"]]
+
+
+def probe_cfg(ctx, exe):
+    rng = ctx.rng("probe")
+    cfg0 = {"snapshot": 0, "fieldfan": 0}
+    out, crash, info = common.run_lines(exe, [], render_case(rng, cfg0, FIELD_PROBE), timeout=30)
+    if crash or len(out) != 5:
+        raise common.CheckError("field probe failed: %s %s" % (crash, info[-800:]))
+    if "C[1:0:7,2:0:7]" in out[-1]:
+        fieldfan = 1
+    elif "C[1:0:0,2:0:0]" in out[-1]:
+        fieldfan = 0
+    else:
+        raise common.CheckError("field probe: unexpected answer " + out[-1])
+    out2, crash, info = common.run_lines(exe, [], render_case(rng, cfg0, VALUE_PROBE), timeout=30)
+    if crash or len(out2) != 7:
+        raise common.CheckError("value probe failed: %s %s" % (crash, info[-800:]))
+    if "out=[s 3]" in out2[-1]:
+        snapshot = 0
+    elif "out=[s 2]" in out2[-1]:
+        snapshot = 1
+    else:
+        raise common.CheckError("value probe: unexpected answer " + out2[-1])
+    return {"snapshot": snapshot, "fieldfan": fieldfan}, out[-1]
+
+
+class ScriptRunner:
+    """script-level cases: the model is run first; a case is cut after the first `ub` answer (a read
+    through a pointer to a freed table entry).  The part before goes through the ordinary diff; the
+    `ub` line itself is run on the implementation alone, anything it does there is accepted and a
+    sanitizer report on it is an instance of finding D16."""
+
+    def __init__(self, ctx, d, exe, cfg):
+        self.ctx, self.d, self.exe, self.cfg = ctx, d, exe, cfg
+        self.ub_cases = 0
+        self.ub_crashed = []      # (stmts, crash signature, info)
+        self.ub_silent = 0
+        self.ub_limit = 60 if ctx.tier == "quick" else 400
+        self.ub_run = 0
+
+    def run(self, named):
+        """named: list of (name, stmts).  returns number of failing cases"""
+        if not named:
+            return 0
+        rng = self.ctx.rng("render")
+        rendered = [(name, st, render_case(rng, self.cfg, st)) for name, st in named]
+        model = common.run_model(AREA, [l for _, _, ls in rendered for l in ls])
+        pos, batch, ubs = 0, [], []
+        for name, st, ls in rendered:
+            m = model[pos:pos + len(ls)]
+            pos += len(ls)
+            if "ub" in m:
+                i = m.index("ub")
+                self.ub_cases += 1
+                if self.cfg["snapshot"]:
+                    raise common.CheckError("model answered ub with snapshot values: " + " / ".join(" ".join(t) for t in st[:i]))
+                batch.append((name, ls[:i]))
+                ubs.append((st[:i], ls[:i + 1]))       # st has no header line: stmt i-1 is the ub one
+            else:
+                batch.append((name, ls))
+        bad = self.d.run_batch(batch)
+        for st, ls in ubs:
+            if self.ub_run >= self.ub_limit:
+                break
+            self.ub_run += 1
+            out, crash, info = common.run_lines(self.exe, [], ls, timeout=30)
+            if crash:
+                self.ub_crashed.append((st, crash, info))
+            else:
+                self.ub_silent += 1
+        return bad
+
+
+def ub_fails(ctx, exe, cfg, stmts):
+    """the model says ub exactly at the last statement and the implementation reports there"""
+    ls = render_case(ctx.rng("shrink"), cfg, stmts)
+    m = common.run_model(AREA, ls)
+    if "ub" not in m or m.index("ub") != len(ls) - 1:
+        return None
+    out, crash, info = common.run_lines(exe, [], ls, timeout=30)
+    if crash and len(out) == len(ls) - 1:
+        return crash, info, ls, out
+    return None
+
+
+def report_d16(ctx, exe, cfg, runner):
+    """one replay for the captured-value finding, shrunk"""
+    cands = sorted(runner.ub_crashed, key=lambda c: len(c[0]))
+    first = ub_fails(ctx, exe, cfg, D16_WITNESS)
+    stmts = D16_WITNESS if first else (cands[0][0] if cands else None)
+    if stmts is None:
+        return
+    if not first:
+        body = common.ddmin(stmts[1:-1], lambda b: ub_fails(ctx, exe, cfg, stmts[:1] + b + stmts[-1:]) is not None, 80)
+        stmts = stmts[:1] + body + stmts[-1:]
+    res = ub_fails(ctx, exe, cfg, stmts)
+    if not res:
+        return
+    crash, info, ls, out = res
+    replay = common.save_replay(ctx, {
+        "property": ctx.prop_id, "kind": "ub-witness", "area": AREA, "lines": ls,
+        "statements": [" ".join(t) for t in stmts], "impl_out": out, "crash": crash, "crash_info": info[-3000:],
+        "why": "a variable that captured `$name` (several bearers) keeps a raw pointer to the list inside the table entry; "
+               "the entry is freed when the group empties (TargetList::RemoveListener -> set::remove); the next read of the "
+               "variable goes through the freed entry (theorem C15_captured_value_unsafe_raw: the model reaches `ub` on this history)",
+        "how_to_replay": "python3 tools/check.py C15 --replay <this file>"})
+    ctx.violations.append({"signature": crash, "replay": replay, "found_input": True,
+                           "why": "captured $name value read after its list was freed"})
+
+
+def report_field(ctx, cfg, lines, answer):
+    replay = common.save_replay(ctx, {
+        "property": ctx.prop_id, "kind": "field-probe", "area": AREA, "lines": lines, "impl_last": answer,
+        "statements": [" ".join(t) for t in FIELD_PROBE],
+        "why": "`$n1.fld = 7` with two objects named n1: the property requires the assignment to reach every object of the group "
+               "exactly once; OP_LOAD_FIELD_VAR calls listenerValue() on the array and throws \"Cannot cast 'array' to 'listener'\", "
+               "no object is reached (theorem C15_field_assignment_rejects_group)",
+        "how_to_replay": "python3 tools/check.py C15 --replay <this file>"})
+    ctx.violations.append({"signature": "field-assignment:group-cast-error", "replay": replay, "found_input": True,
+                           "why": "field assignment on a group reaches no object"})
+
+
+# ---------------------------------------------------------------------------------------------
+# bounded-exhaustive script histories
+
+def exhaustive_script(depth, nobj=2):
+    """every sequence of `depth` statements from a small alphabet over names n1,n2, `nobj` pre-spawned
+    objects and one value slot, followed by a fixed observation suffix"""
+    alpha = []
+    for n in (2, 3):
+        alpha += [["spawn", str(n)], ["capture", "1", str(n)], ["fandelete", "$%d" % n],
+                  ["fanname", "$%d" % n, str(5 - n)], ["fieldset", "$%d" % n, "9"],
+                  ["fan", "$%d" % n, "hello", ";", "mark", "self", ";", "delete", "o1"],
+                  ["fan", "$%d" % n, "hello", ";", "setname", "o2", str(5 - n), ";", "mark", "self"]]
+        for k in range(1, nobj + 1):
+            alpha.append(["setname", "o%d" % k, str(n)])
+    for k in range(1, nobj + 1):
+        alpha.append(["delete", "o%d" % k])
+    alpha += [["fan", "v1", "hello", ";", "mark", "self"], ["fandelete", "v1"], ["fanname", "v1", "2"]]
+    suffix = [["query", "$2"], ["query", "$3"], ["query", "v1"], ["index", "v1", "2"], ["fieldset", "v1", "5"]]
+    prefix = [["init"]] + [["spawn", "2"] for _ in range(nobj)]
+    out = []
+
+    def rec(cur, d):
+        if d == 0:
+            out.append(prefix + cur + suffix)
+            return
+        for a in alpha:
+            rec(cur + [a], d - 1)
+    rec([], depth)
+    return out, len(alpha)
+
+
 def check(ctx):
     prop = Prop()
     common.proof_side(ctx, PROPS_MODULE, PROPS_FILE)
     if ctx.tier == "thorough":
         common.leanchecker(ctx, PROPS_MODULE)
     exe = build(ctx)
-    cfg = {"snapshot": 0, "fieldfan": 0}
+    cfg, field_answer = probe_cfg(ctx, exe)
+    ctx.stats["code_variant"] = cfg
+    ctx.notes.append("code variant detected by probes: captured $name value is a %s, field assignment on a group %s" % (
+        "snapshot (const array)" if cfg["snapshot"] else "raw pointer to the table's list (live view)",
+        "fans out" if cfg["fieldfan"] else "is rejected with a cast error"))
     d = Diff(ctx, prop, exe, AREA)
-    bad = d.run_batch(corpus_cases())
-    rng = ctx.rng("host")
     quick = ctx.tier == "quick"
-    ncases, length = (300, 120) if quick else (6000, 400)
+    bad = 0
+    # corpus: host-level line cases and script-level statement cases
+    runner = ScriptRunner(ctx, d, exe, cfg)
+    host_corpus, script_corpus = [], []
+    for name, obj in corpus_cases():
+        if "statements" in obj:
+            script_corpus.append((name, [t.split(" ") for t in obj["statements"]]))
+        else:
+            host_corpus.append((name, [header(cfg)] + [l for l in obj["lines"] if not l.startswith("universe")]))
+    bad += d.run_batch(host_corpus)
+    bad += runner.run(script_corpus)
+    # host level
+    rng = ctx.rng("host")
+    ncases, length = (300, 120) if quick else (5000, 400)
     batch = []
     for i in range(ncases):
         batch.append(("host:%d" % i, gen_host(rng, rng.choice([8, 30, length]), cfg, rng.choice([1, 2, 4]))))
@@ -312,11 +488,42 @@ def check(ctx):
     ctx.stats["exhaustive_host_histories"] = len(exh)
     for i in range(0, len(exh), 1000):
         bad += d.run_batch([("exh-host:%d" % (i + j), c) for j, c in enumerate(exh[i:i + 1000])])
-    ctx.oblige("correspondence harness/target.cpp == Target model on %d histories" % d.cases, bad == 0,
-               "%d differing cases" % bad, reported=True)
-    ctx.samples = [gen_host(ctx.rng("sample"), 12, cfg)]
+    host_cases = d.cases
+    # script level
+    rng = ctx.rng("script")
+    ncases, length = (400, 60) if quick else (6000, 250)
+    batch = []
+    for i in range(ncases):
+        batch.append(("script:%d" % i, gen_script_case(rng, rng.choice([6, 20, length]), cfg, rng.choice([1, 2, 2, 4]))))
+        if len(batch) == 100:
+            bad += runner.run(batch); batch = []
+    bad += runner.run(batch)
+    exs, nalpha = exhaustive_script(2 if quick else 3)
+    ctx.stats["exhaustive_script_histories"] = len(exs)
+    ctx.stats["exhaustive_script_alphabet"] = nalpha
+    for i in range(0, len(exs), 500):
+        bad += runner.run([("exh-script:%d" % (i + j), c) for j, c in enumerate(exs[i:i + 500])])
+    ctx.stats["script_cases"] = d.cases - host_cases
+    ctx.stats["ub_cases_model"] = runner.ub_cases
+    ctx.stats["ub_cases_run_on_impl"] = runner.ub_run
+    ctx.stats["ub_cases_sanitizer_report"] = len(runner.ub_crashed)
+    ctx.stats["ub_cases_silent"] = runner.ub_silent
+    ctx.oblige("correspondence harness/target.cpp == Target model (variant %s) on %d histories" % (
+        "snapshot=%d,fieldfan=%d" % (cfg["snapshot"], cfg["fieldfan"]), d.cases), bad == 0,
+        "%d differing cases" % bad, reported=True)
+    # the two clauses the unrepaired code violates (the model reproduces both faithfully, so the
+    # correspondence cannot show them: they are reported from the probes / the ub cases)
+    if not cfg["snapshot"]:
+        report_d16(ctx, exe, cfg, runner)
+    if not cfg["fieldfan"]:
+        report_field(ctx, cfg, render_case(ctx.rng("probe"), cfg, FIELD_PROBE), field_answer)
+    ctx.samples = [gen_host(ctx.rng("sample"), 10, cfg),
+                   [" ".join(t) for t in gen_script_case(ctx.rng("sample2"), 10, cfg)]]
     cov = {
         "evaluations": d.cases, "distinct_nontrivial": len(d.distinct),
+        "rule": "host level: op sequences on the real TargetList/SimpleEntity over 8 objects, 4 names + \"\" + the empty resolvable, whole table compared after every op; "
+                "script level: one script per statement in one context (spawn / targetname / remove / $name / .size / [i] / command and thread fan-out with handlers that rename, delete and spawn / field assignment / captured values), "
+                "printed lines + whole table + live objects + counters compared after every statement; plus every host history of the stated depth over 3 objects / 3 names and every script history of the stated depth over a %d-statement alphabet" % nalpha,
         "op_lines": d.lines, "op_histogram": d.hist, "model_answer_kinds": d.outkinds,
         "exhaustive": False,
     }
@@ -327,10 +534,27 @@ def check(ctx):
 def replay(ctx, obj):
     common.lake_build()
     exe = build(ctx)
+    kind = obj.get("kind")
+    if kind == "ub-witness":
+        out, crash, info = common.run_lines(exe, [], obj["lines"], timeout=30)
+        model = common.run_model(AREA, obj["lines"])
+        for i, st in enumerate(["universe"] + obj["statements"]):
+            print("> %s\n  impl : %s\n  model: %s" % (st, out[i] if i < len(out) else "<no answer>", model[i] if i < len(model) else "<missing>"))
+        print("CRASH" if crash else "no sanitizer report", crash or ""); print(info[-2500:] if crash else "")
+        print("replay:", "still fails" if crash else "no failure")
+        return 1 if crash else 0
+    if kind == "field-probe":
+        out, crash, info = common.run_lines(exe, [], obj["lines"], timeout=30)
+        for i, st in enumerate(["universe"] + obj["statements"]):
+            print("> %s\n  impl : %s" % (st, out[i] if i < len(out) else "<no answer>"))
+        ok = (not crash) and out and "C[1:0:7,2:0:7]" in out[-1]
+        print("required: fld = 7 on both objects (C[1:0:7,2:0:7])")
+        print("replay:", "no failure" if ok else "still fails")
+        return 0 if ok else 1
     d = Diff(ctx, Prop(), exe, AREA)
     impl, crash, info, model = d.both(obj["lines"])
     for i, l in enumerate(obj["lines"]):
-        print("> %s\n  impl : %s\n  model: %s" % (l[:300], impl[i] if i < len(impl) else "<missing>", model[i] if i < len(model) else "<missing>"))
+        print("> %s\n  impl : %s\n  model: %s" % (l.split("##")[-1][:300], impl[i] if i < len(impl) else "<missing>", model[i] if i < len(model) else "<missing>"))
     if crash:
         print("CRASH", crash); print(info)
     bad = crash is not None or common.first_diff(impl, model) is not None
